@@ -524,7 +524,7 @@ class DictNode(MappingNode, MultiSetNode[KeyValuePairNode]):
         )
 
     def edits(self, node: TreeNode) -> Edit:
-        if isinstance(node, MultiSetNode):
+        if isinstance(node, DictNode):
             return super().edits(node)
         else:
             return Replace(self, node)
